@@ -916,6 +916,12 @@ func c16Run(c *vk.Case) {
 	default:
 		decls = []*model.Decl{c16Decl(r, 0, namePoolTbl[0], srcs, mkOpts())}
 	}
+	if strings.HasPrefix(kind, "existing") && (c.Index/8)%4 == 1 {
+		// a table name longer than PostgreSQL keeps (63 bytes): statements address the truncated name, the catalog
+		// lookup of the migration compares the untruncated string; the existing table still has to get its columns
+		decls[0].Table = namePoolTbl[0] + "_" + strings.Repeat("long_name_", 7)
+		c.Obs("existing_table_scenarios_with_name_over_63_bytes", 1)
+	}
 	for _, d := range decls {
 		for _, ec := range d.ExtraCols {
 			if _, ok := c16AutoType[ec.Name]; ok {
